@@ -4,6 +4,7 @@ import (
 	"bytes"
 	"fmt"
 	"math/big"
+	"strings"
 
 	"google.golang.org/protobuf/proto"
 
@@ -277,6 +278,9 @@ func genWorkObjectMon(c *ctx) *gen {
 			if b2, _ := marshalWo(y, view); !bytes.Equal(b, b2) {
 				c.fail(sig+how+"/reencode-differs", fmt.Sprintf("encode(decode b) != b (%d vs %d bytes)", len(b), len(b2)))
 			}
+			if v, w := bodyView(x), bodyView(y); v != w {
+				c.fail(sig+how+"/body-differs", fmt.Sprintf("before %s\nafter  %s", v, w))
+			}
 			if len(y.Transactions()) != len(x.Transactions()) {
 				c.fail(sig+how+"/tx-count-differs", fmt.Sprintf("%d vs %d", len(x.Transactions()), len(y.Transactions())))
 			} else {
@@ -300,7 +304,7 @@ func genWorkObjectMon(c *ctx) *gen {
 			} else {
 				check(y, "proto")
 			}
-			if len(b) < 2500 {
+			if len(b) < 1500 {
 				c.protoCheck(c.msgByGo(pe), pe.ProtoReflect(), "workobject "+name)
 			}
 		case "p2p-block", "p2p-header", "p2p-share":
@@ -350,6 +354,10 @@ func genWorkObjectMon(c *ctx) *gen {
 			if y.Hash() != hash {
 				c.fail(sig+"hash-differs", fmt.Sprintf("%s vs %s", hash.Hex(), y.Hash().Hex()))
 			}
+			x2 := types.NewWorkObject(x.WorkObjectHeader(), x.Body(), nil)
+			if v, w := bodyView(x2), bodyView(y); v != w {
+				c.fail(sig+"body-view-differs", fmt.Sprintf("before %s\nafter  %s", v, w))
+			}
 			bb, _ := proto.Marshal(mustBody(x.Body(), types.BlockObject))
 			bb2, _ := proto.Marshal(mustBody(y.Body(), types.BlockObject))
 			if !bytes.Equal(bb, bb2) {
@@ -362,6 +370,33 @@ func genWorkObjectMon(c *ctx) *gen {
 			}
 		}
 	}}
+}
+
+// bodyView projects the parts of a work object body that are lists of identities
+func bodyView(wo *types.WorkObject) string {
+	if wo.Body() == nil {
+		return "nil"
+	}
+	var sb strings.Builder
+	for _, t := range wo.Body().Transactions() {
+		sb.WriteString(" tx:" + t.Hash().Hex())
+	}
+	for _, t := range wo.Body().OutboundEtxs() {
+		sb.WriteString(" etx:" + t.Hash().Hex())
+	}
+	for _, u := range wo.Body().Uncles() {
+		sb.WriteString(" uncle:" + u.Hash().Hex() + "/" + u.SealHash().Hex())
+	}
+	for _, h := range wo.Body().Manifest() {
+		sb.WriteString(" manifest:" + h.Hex())
+	}
+	for _, h := range wo.Body().InterlinkHashes() {
+		sb.WriteString(" interlink:" + h.Hex())
+	}
+	if wo.Tx() != nil {
+		sb.WriteString(" wotx:" + wo.Tx().Hash().Hex())
+	}
+	return sb.String()
 }
 
 func mustBody(b *types.WorkObjectBody, v types.WorkObjectView) *types.ProtoWorkObjectBody {
@@ -424,13 +459,20 @@ func genStorageMon(c *ctx) *gen {
 			} else {
 				for i := range rs {
 					a, z := (*types.Receipt)(rs[i]), (*types.Receipt)(back[i])
-					if a.Status != z.Status || a.CumulativeGasUsed != z.CumulativeGasUsed || a.GasUsed != z.GasUsed || a.TxHash != z.TxHash ||
+					if a.CumulativeGasUsed != z.CumulativeGasUsed || a.GasUsed != z.GasUsed || a.TxHash != z.TxHash ||
 						!bytes.Equal(a.ContractAddress.Bytes(), z.ContractAddress.Bytes()) || len(a.Logs) != len(z.Logs) || len(a.OutboundEtxs) != len(z.OutboundEtxs) {
-						c.fail(sig+"object-differs", fmt.Sprintf("receipt %d", i))
+						c.fail(sig+"object-differs", fmt.Sprintf("receipt %d: %+v vs %+v", i, a, z))
+					}
+					if a.Status != z.Status {
+						cls := ""
+						if a.Status == types.ReceiptStatusLocked && z.Status == types.ReceiptStatusSuccessful {
+							cls = "/locked-read-back-as-successful"
+						}
+						c.fail(sig+"status-differs"+cls, fmt.Sprintf("receipt %d: status %d stored, %d read back", i, a.Status, z.Status))
 					}
 				}
 			}
-			if len(b) < 2500 {
+			if len(b) < 1500 {
 				c.protoCheck(c.msgByGo(pe), pe.ProtoReflect(), "receipts")
 			}
 			// rawdb
@@ -445,8 +487,15 @@ func genStorageMon(c *ctx) *gen {
 				c.fail(sig+"rawdb/count-differs", fmt.Sprintf("%d vs %d", len(plain), len(got)))
 			} else {
 				for i := range got {
-					if got[i].TxHash != plain[i].TxHash || got[i].Status != plain[i].Status || got[i].GasUsed != plain[i].GasUsed || len(got[i].Logs) != len(plain[i].Logs) {
+					if got[i].TxHash != plain[i].TxHash || got[i].GasUsed != plain[i].GasUsed || len(got[i].Logs) != len(plain[i].Logs) {
 						c.fail(sig+"rawdb/object-differs", fmt.Sprintf("receipt %d", i))
+					}
+					if got[i].Status != plain[i].Status {
+						cls := ""
+						if plain[i].Status == types.ReceiptStatusLocked && got[i].Status == types.ReceiptStatusSuccessful {
+							cls = "/locked-read-back-as-successful"
+						}
+						c.fail(sig+"rawdb/status-differs"+cls, fmt.Sprintf("receipt %d: status %d written, %d read", i, plain[i].Status, got[i].Status))
 					}
 				}
 			}
@@ -472,7 +521,7 @@ func genStorageMon(c *ctx) *gen {
 				pe2, _ := got.ProtoEncode()
 				b2, _ = proto.Marshal(pe2)
 				hashBefore, hashAfter = wo.Hash(), got.Header.Hash()
-				if len(b) < 2500 {
+				if len(b) < 1500 {
 					c.protoCheck(c.msgByGo(pe), pe.ProtoReflect(), name)
 				}
 			} else {
@@ -569,7 +618,7 @@ func genP2PMon(c *ctx) *gen {
 				c.fail(sig+"decode-own-bytes", err.Error())
 				return
 			}
-			gid, gdata, gloc, gtyp, err := pb.DecodeQuaiRequest(msg.GetRequest())
+			gid, gtyp, gloc, gdata, err := pb.DecodeQuaiRequest(msg.GetRequest())
 			if err != nil {
 				c.fail(sig+"decode-request", err.Error())
 				return
@@ -595,7 +644,7 @@ func genP2PMon(c *ctx) *gen {
 			h := genHash(r)
 			var wo *types.WorkObject
 			if name == "response-hash" {
-				data, typ = &h, &common.Hash{}
+				data, typ = h, &common.Hash{}
 			} else {
 				wo = genWorkObject(r, loc).ConvertToHeaderView().WorkObject
 				data, typ = &types.WorkObjectHeaderView{WorkObject: wo}, &types.WorkObjectHeaderView{}
@@ -629,7 +678,7 @@ func genP2PMon(c *ctx) *gen {
 			if !ok {
 				c.fail(sig+"object-differs", fmt.Sprintf("id %d/%d data %T", id, gid, gdata))
 			}
-			if len(wire) < 2500 {
+			if len(wire) < 1500 {
 				c.protoCheck(c.msgByGo(msg), msg.ProtoReflect(), name)
 			}
 		}
